@@ -153,7 +153,7 @@ func genSys(g *GenCtx) {
 		re := Pick(g.R, []int{0, 10, 30})
 		delay := Pick(g.R, []int{5, 30, 120})
 		outages := "-"
-		deadline := 90000
+		deadline := 45000
 		if g.Thorough() && i%2 == 0 {
 			// a long outage after the transfer started, then recovery
 			st := 200 + g.R.Intn(300)
@@ -365,6 +365,10 @@ func runOne(c *sysCase) []string {
 	case <-fin:
 	case <-time.After(time.Until(deadline)):
 		tr.add("note deadline")
+		for i := 0; i < c.ntubes; i++ {
+			tr.add("note state client tube %d: %s", i, strings.ReplaceAll(ct[i].VerifDebug(), " ", "_"))
+			tr.add("note state server tube %d: %s", i, strings.ReplaceAll(st[i].VerifDebug(), " ", "_"))
+		}
 	}
 	close(done)
 	tr.mu.Lock()
